@@ -142,6 +142,47 @@ func c17Conds(s *source, e *emitter, rel, goName, prefix string) {
 	e.printf("def %sCount : Nat := %d\n\n", prefix, i)
 }
 
+// c17CondsSw: like c17Conds, and additionally every case expression of a TAGLESS switch (`switch { case a && b: … }`) is a
+// condition (source order, mixed with the ifs as they appear).  Used for the dispatch functions of the unmarshaller.
+func c17CondsSw(s *source, e *emitter, rel, goName, prefix string) {
+	fd := s.findFunc(rel, goName)
+	if fd == nil {
+		e.errors = append(e.errors, "function "+goName+" not found in "+rel)
+		return
+	}
+	i := 0
+	emit := func(cond ast.Expr, what string) {
+		ctx := &c17CondCtx{s: s, types: map[string]string{}}
+		body := ctx.boolExpr(cond)
+		for _, b := range ctx.bad {
+			e.errors = append(e.errors, goName+": "+b)
+		}
+		var params strings.Builder
+		for _, nm := range ctx.names {
+			fmt.Fprintf(&params, " (%s : %s)", nm, ctx.types[nm])
+		}
+		e.printf("/-- condition %d of `%s` in %s: `%s %s` -/\ndef %s%d%s : Bool := %s\n\n", i, goName, rel, what,
+			strings.ReplaceAll(strings.Join(strings.Fields(s.src(cond)), " "), "-/", "- /"), prefix, i, params.String(), body)
+		i++
+	}
+	ast.Inspect(fd.Body, func(n ast.Node) bool {
+		switch st := n.(type) {
+		case *ast.IfStmt:
+			emit(st.Cond, "if")
+		case *ast.SwitchStmt:
+			if st.Tag == nil {
+				for _, c := range st.Body.List {
+					for _, x := range c.(*ast.CaseClause).List {
+						emit(x, "case")
+					}
+				}
+			}
+		}
+		return true
+	})
+	e.printf("def %sCount : Nat := %d\n\n", prefix, i)
+}
+
 // c17AllocSites: for the first `range` loop of a function, every call `SetMapIndexValue(…, X)` / `….SetMapIndex(k, X)`
 // with the origin of the cell X refers to: "loop <name> := <init>" when the root identifier of X is declared (`:=`)
 // inside the loop body — a fresh cell per iteration — else "outer <name>" (a cell shared by all iterations).
@@ -795,6 +836,25 @@ func init() {
 		c17Detail(s, e, cf, "LoadConfigFromYamlBytes", "cLoadConfigYaml")
 		c17Conds(s, e, cf, "getTagName", "tagNameCond")
 		// round 5: where the bytes of a conversion live, and the typed data flow of every delegating entry point
+		// round 5c: the decisions of the unmarshaller's dispatch functions, translated
+		c17CondsSw(s, e, mf, "Unmarshaler.processFieldNotFromString", "nfsCond")
+		c17CondsSw(s, e, mf, "Unmarshaler.processNamedField", "namedCond")
+		c17CondsSw(s, e, mf, "Unmarshaler.processNamedFieldWithValue", "withValCond")
+		c17CondsSw(s, e, mf, "Unmarshaler.processNamedFieldWithoutValue", "noValCond")
+		c17CondsSw(s, e, mf, "Unmarshaler.processFieldPrimitive", "primCond")
+		c17CondsSw(s, e, mf, "Unmarshaler.fillMap", "fillMapCond")
+		c17SwitchCases(s, e, mf, "Unmarshaler.processFieldNotFromString", "nfsCases")
+		c17SwitchCases(s, e, mf, "Unmarshaler.processNamedFieldWithValue", "withValKindCases")
+		c17SwitchCases(s, e, mf, "Unmarshaler.processNamedFieldWithoutValue", "noValDefaultCases")
+		c17CondsSw(s, e, cf, "buildStructFieldsInfo", "structInfoCond")
+		c17CondsSw(s, e, cf, "addOrMergeFields", "addMergeCond")
+		c17CondsSw(s, e, cf, "mergeFields", "mergeCond")
+		c17CondsSw(s, e, cf, "buildAnonymousFieldInfo", "anonInfoCond")
+		c17Detail(s, e, cf, "buildStructFieldsInfo", "cBuildStructFieldsInfo")
+		c17Detail(s, e, cf, "addOrMergeFields", "cAddOrMergeFields")
+		c17Detail(s, e, cf, "mergeFields", "cMergeFields")
+		c17Detail(s, e, cf, "buildAnonymousFieldInfo", "cBuildAnonymousFieldInfo")
+		c17SwitchCases(s, e, cf, "buildAnonymousFieldInfo", "anonInfoCases")
 		c17ByteFlow(s, e, ef, "encodeToJSON", "encodeBufFlow")
 		c17Forward(s, e, ef, "YamlToJson", "fwdEYamlToJson")
 		c17Forward(s, e, ef, "TomlToJson", "fwdETomlToJson")
